@@ -102,6 +102,17 @@ CHECKS = {
         "is a recorded known finding because its repair breaks three existing tests.",
    technique="TLA+ spec PluginLoad + TLC boundary enumeration (MC_PluginLoad) replayed into the real loader; I->S trace validation (Trace_PluginLoad)",
    design="4 C20"),
+ "C12": dict(
+   category="model_checking",
+   text="DictLayers.tla models the grammar's POS list (system POS, POS registered by plugins while loading, user-only POS of each merged user dictionary appended without deduplication), "
+        "the offset recorded at merge time, the POS id a user dictionary stores (system id or n0 + own index), its rebasing at read time, the stamping of non-system references with the owning "
+        "layer, and the 15-dictionary limit; TLC checks PosStraight for every order of plugin registrations (new POS / existing system POS / POS also declared by a user dictionary) and every "
+        "stack of user dictionaries with overlapping user POS. Each enumerated configuration is built for real (DictBuilder::new_user against the system dictionary, from_cfg_storage with OOV "
+        "providers that register POS) and every word is observed through an analysis (dictionary id, POS strings, is_oov) and through the lexicon (POS, split references); random stacks of up "
+        "to 14 user dictionaries and the refused 15th are trace-validated.",
+   note="Trusted: TLC, JSON bridge, the CSV/config renderer. User dictionaries are compiled against the bare system dictionary. Plugin registration is exercised through OOV providers with userPOS=allow.",
+   technique="TLA+ spec DictLayers (PosStraight) + TLC; S->I replay through real build+load+analysis; I->S trace validation (Trace_DictLayers)",
+   design="4 C12"),
 }
 
 NOT_YET = "no check registered yet in this revision (work in progress; see DESIGN.md section 8 build order)"
